@@ -31,6 +31,22 @@ func TestDevMakeWAL(t *testing.T) {
 	w, _ := os.ReadFile(src + "-wal")
 	db.Close()
 	fmt.Printf("DB %d WAL %d\n", len(d), len(w))
-	out := "package extract\n\n// Generated once by TestDevMakeWAL (wal_dev_test.go) with github.com/mattn/go-sqlite3: a WAL-mode\n// rpmdb.sqlite (table Packages, one row) copied together with its -wal file while the writer was\n// still open - the snapshot of a live machine.  Stored verbatim so that the scenario is reproducible\n// (a WAL header carries random salts).\nconst (\n\twalDB  = \"" + base64.StdEncoding.EncodeToString(d) + "\"\n\twalWAL = \"" + base64.StdEncoding.EncodeToString(w) + "\"\n)\n"
+	// second fixture: WAL mode, checkpointed (everything in the main file), two rows whose header
+	// blobs are corrupt - the consumer stops at the first row, the reader goroutine stays blocked
+	src2 := filepath.Join(work, "src2.sqlite")
+	db2, err := sql.Open("sqlite3", src2+"?_journal_mode=WAL")
+	if err != nil {
+		t.Fatal(err)
+	}
+	db2.SetMaxOpenConns(1)
+	for _, q := range []string{"CREATE TABLE Packages (hnum INTEGER PRIMARY KEY, blob BLOB NOT NULL)", "INSERT INTO Packages(blob) VALUES (x'00')", "INSERT INTO Packages(blob) VALUES (x'0001')", "INSERT INTO Packages(blob) VALUES (x'00')", "PRAGMA wal_checkpoint(TRUNCATE)"} {
+		if _, err := db2.Exec(q); err != nil {
+			t.Fatalf("%s: %v", q, err)
+		}
+	}
+	db2.Close()
+	d2, _ := os.ReadFile(src2)
+	fmt.Printf("DB2 %d\n", len(d2))
+	out := "package extract\n\n// Generated once by TestDevMakeWAL (wal_dev_test.go) with github.com/mattn/go-sqlite3: a WAL-mode\n// rpmdb.sqlite (table Packages, one row) copied together with its -wal file while the writer was\n// still open - the snapshot of a live machine.  Stored verbatim so that the scenario is reproducible\n// (a WAL header carries random salts).\nconst (\n\twalDB  = \"" + base64.StdEncoding.EncodeToString(d) + "\"\n\twalWAL = \"" + base64.StdEncoding.EncodeToString(w) + "\"\n\twalDB2 = \"" + base64.StdEncoding.EncodeToString(d2) + "\"\n)\n"
 	os.WriteFile(os.Getenv("X_WAL_OUT"), []byte(out), 0o644)
 }
